@@ -9,6 +9,7 @@ observation record and
 """
 import json
 import os
+import random
 import re
 import signal
 
@@ -324,6 +325,7 @@ class Replayer(object):
 
     def __init__(self, ctx):
         self.ctx = ctx
+        self.rng = random.Random(ctx.seed + 18)  # own generator: TLC's output order must not shift the random sessions
         self.nmism = 0
         self.pools = None
         self.n = 0
@@ -365,7 +367,7 @@ class Replayer(object):
             if len(self.mism) < self.KEEP:
                 self.mism.append((tr, case))
             else:
-                j = self.ctx.rng.randrange(self.nmism)
+                j = self.rng.randrange(self.nmism)
                 if j < self.KEEP:
                     self.mism[j] = (tr, case)
         elif self.n % 97 == 0 and len(self.sampled) < 3000:
